@@ -379,8 +379,17 @@ func checkFlow(p flowParams, x *verifkit.Exec) []verifkit.Violation {
 	// ---- C12: force stop ----
 	if p.Stop == "force" && forceRet >= 0 {
 		waited := false
+		endSeq := len(a.evs) + 1 // the exploration of the execution ended here; afterwards the harness winds the engine down
 		for _, e := range a.evs {
-			if e.Seq > forceRet && e.Comp == "ctl" && e.Kind == "wait.ret" {
+			if e.Comp == "end" && e.Kind == "status" {
+				endSeq = e.Seq
+				break
+			}
+		}
+		for _, e := range a.evs {
+			if e.Seq > forceRet && e.Seq < endSeq && e.Comp == "ctl" && e.Kind == "wait.ret" {
+				// (a wait that only returns during the harness's wind-down - aborted gates, cancelled contexts - did not return
+				// on its own: the run had not terminated)
 				waited = true
 			}
 			if e.Seq > forceRet && isSource(e.Comp) && e.Kind == "open" && !p.Restart {
